@@ -469,8 +469,11 @@ def run(prop, tier):
         for o in tie["tables"][0]:
             flags_of[o["dest"]] = o["flags"]
     else:
-        # the extractor rejected the source: fall back to the documented long flags
-        flags_of = None
+        # the extractor rejected the source: the end-to-end runs use the documented flags (Cli/Options.v)
+        import re as _re
+        flags_of = {}
+        for m in _re.finditer(r'mkOpt \[([^\]]*)\] "([a-z_]+)"', open(os.path.join(C.COQ, "Cli", "Options.v")).read()):
+            flags_of[m.group(2)] = [x.strip().strip('"') for x in m.group(1).split(";") if x.strip()]
     e2e = []
     n_e2e = 260 if quick else 3000
     hist = {"kinds": {}, "extras": {}, "templates": {}, "lines": 0, "status": {}}
@@ -605,6 +608,11 @@ def run(prop, tier):
     })
     if violation:
         res.add_violation(violation["what"], violation)
+    elif (not tie["ok"] or not tie_f["ok"]) and not mism and "could not be extracted" not in str(tie.get("detail", "")):
+        res.tie_undischarged(("table tie broken: " + tie["detail"][:500] if not tie["ok"] else "") + (" translation tie broken: " + tie_f["detail"][:500] if not tie_f["ok"] else "")
+                             + " -- the end-to-end runs and the formatter correspondence agree everywhere and the statement's clauses found no failing input",
+                             {"no_longer_checks": ("CliTie.v (tie_options / tie_kwargs) " if not tie["ok"] else "") + ("TieFmt.v (tie_fields)" if not tie_f["ok"] else ""),
+                              "tie_detail": [tie["detail"], tie_f["detail"]]})
     elif not tie["ok"] or not tie_f["ok"] or mism:
         what = []
         if not tie["ok"]:
